@@ -311,7 +311,7 @@ def r6(ctx):
     g = ctx.fn(COUNTTABLE, 'create_count_table')
     # (a) contig lengths per file
     stores = [s_ for s_ in walk_no_nested(g) if isinstance(s_, ast.Assign) and any(src(t_) == 'args.ref_lengths' for t_ in s_.targets)]
-    floops = [l for l in walk_no_nested(g) if isinstance(l, ast.For) and 'alignmentfiles' in src(l.iter) and any(isinstance(c, ast.Call) and (dotted(c.func) or '').endswith('assignReads') for c in walk_no_nested(l))]
+    floops = [l for l in walk_no_nested(g) if isinstance(l, ast.For) and 'alignmentfiles' in src(l.iter) and any(isinstance(c, ast.Call) and (dotted(c.func) or '').endswith('assignReads') for c in ast.walk(l))]      # also through a closure defined in the loop
     ok = bool(stores) and len(floops) == 1
     why = 'args.ref_lengths is never set' if not stores else 'loop over the alignment files that calls assignReads not found'
     if ok:
@@ -332,7 +332,8 @@ def r6(ctx):
                 ok, why = False, f'the contig lengths stored per file do not come from the handle of that file ({sorted(handles)})'
         if ok:
             why = f'contig lengths are re-read from the header of each file ({sorted(handles)}) inside the file loop'
-    ctx.emit('C10-R6', ok, COUNTTABLE, stores[0] if stores else g, why, key='ref-lengths-per-file', what='create_count_table: contig lengths of the first file are used for all files')
+    ctx.emit('C10-R6', ok, COUNTTABLE, stores[0] if stores else g, why, key='ref-lengths-per-file', undecided=(not ok and 'not found' in why),
+             what='create_count_table: contig lengths of the first file are used for all files')
     # (b) split feature states keep every tag
     f = ctx.fn(COUNTTABLE, 'assignReads')
     sloops = [l for l in walk_no_nested(f) if isinstance(l, ast.For) and 'product' in src(l.iter)]
